@@ -519,6 +519,25 @@ pub fn s21_unicode_names() -> Scenario
     }
 }
 
+/// S22: a rules-file edit turns a leaf source into a generated target (and back) while the bytes stay
+/// the same: the rule that reads it keeps its identity and its source contents
+pub fn s22_leaf_becomes_target() -> Scenario
+{
+    let base = vec![cat_rule("t", &["s1", "s2"]), cat_rule("d", &["t"])];
+    let gen = vec![cat_rule("s1", &["raw"]), cat_rule("t", &["s1", "s2"]), cat_rule("d", &["t"])];
+    Scenario
+    {
+        name: "S22-leaf-becomes-target".into(),
+        variants: vec![base, gen],
+        edits: vec![(s("s1"), xy()), (s("s2"), xy()), (s("raw"), xy())],
+        goals: vec![None],
+        tamper: vec![],
+        ops: OpKinds { edit: true, build: true, rules: true, ..Default::default() },
+        nondeterministic: false,
+        flat_variants: vec![],
+    }
+}
+
 /// S17 (C18 only): a two-target rule whose targets are byte-identical twins and read an undeclared
 /// file `k` (deleting `k` makes its command fail), next to a rule whose target can take the same
 /// content as the twins.  Reaches: partial recovery of one twin from an entry another rule's target
@@ -552,7 +571,7 @@ pub fn by_name(name: &str) -> Option<Scenario>
 
 pub fn all_scenarios() -> Vec<Scenario>
 {
-    let mut v = vec![s1_chain(), s1_chain_xyz(), s14_five(), s2_diamond(), s3_multi(), s3_c18(), s4_twins(), s4_c18(), s5_variants(), s6_exec(), s8_failures(), s9_scope(), s10_bundle(), s11_three(), s12_multiline_failure(), s13_binary(), s15_repeated(), s16_big(), s17_c18_failing_twins(), s18_empty(), s19_aside(), s17b_failing_twins3(), s20_dir_source(), s21_unicode_names()];
+    let mut v = vec![s1_chain(), s1_chain_xyz(), s14_five(), s2_diamond(), s3_multi(), s3_c18(), s4_twins(), s4_c18(), s5_variants(), s6_exec(), s8_failures(), s9_scope(), s10_bundle(), s11_three(), s12_multiline_failure(), s13_binary(), s15_repeated(), s16_big(), s17_c18_failing_twins(), s18_empty(), s19_aside(), s17b_failing_twins3(), s20_dir_source(), s21_unicode_names(), s22_leaf_becomes_target()];
     for m in 0..4 { v.push(s7_undeclared(m)); }
     for m in 0..8 { v.push(s7_undeclared3(m)); }
     v.push(s7_preserving());
